@@ -1,9 +1,26 @@
-"""C02 -- every reported line is the line on which the flagged construct begins: bounded executable contracts
-(get_line_number bounded-exhaustive + random texts; analyze_for_* over programs x layouts x 30 detectors)."""
+"""C02 -- every reported line is the line on which the flagged construct begins (bounded).
+
+Two native checks: `c02` (get_line_number exhaustive on short texts; analyze_for_* line sets on programs x layouts)
+and `c02-loc` (the detector reports the location of the construct named in DESIGN §8, not of a sub-node).
+For the detectors under a Verus contract the reported location is also part of the proved postcondition
+(loc_P in units det_expr / det_decl / det_gate / det_vuln, checked by C05-C07, C09)."""
+from .. import driver as D
 from . import bounded
 
 
 def run(tier, seed):
-    return bounded.run_bounded(
-        "C02", "c02", tier, seed,
-        "get_line_number(off, s) == 1 + #LF before off; analyze_for_*(src, p) == { 1 + #LF before loc.start : loc in detector_p(parse(src)) }")
+    vd = D.Verdict("C02", tier, seed)
+    try:
+        binary, _ = D.build_native()
+    except D.BuildError as e:
+        vd.add_undecided(str(e)[:800])
+        return vd.finish({"level": "exploration", "coverage": {"evaluations": 1, "distinct_nontrivial": 2, "rule": "native harness did not build", "samples": ["-"]}})
+    nat = D.run_native(binary, "c02", tier, seed)
+    bounded.add_native_violations(vd, nat, "get_line_number / analyze_for_* line contract")
+    nloc = D.run_native(binary, "c02-loc", tier, seed)
+    bounded.add_native_violations(vd, nloc, "reported location is the construct's own location")
+    ev = bounded.evidence_from_native(nat, ["which node's location a detector reports is additionally part of the Verus contracts of C05-C07/C09 (loc_P)"])
+    ev["coverage"]["evaluations"] += int(nloc.get("evaluations", 0))
+    ev["coverage"]["distinct_nontrivial"] += int(nloc.get("distinct_nontrivial", 0))
+    ev["coverage"]["wrong_node_location_check"] = {k: nloc.get(k) for k in ("evaluations", "distinct_nontrivial", "rule", "bound", "wall_s", "cmd")}
+    return vd.finish(ev)
